@@ -12,6 +12,8 @@ from mirlib import Facts, CheckerError
 HERE = os.path.dirname(os.path.abspath(__file__))
 REPO = os.environ.get('NL_REPO', '/repo')
 WORK = os.path.join(HERE, '.work')
+EVID = os.environ.get('NL_EVIDENCE_DIR') or os.path.join(HERE, 'evidence')
+REPL = os.environ.get('NL_REPLAY_DIR') or os.path.join(HERE, 'replays')
 
 
 def repo_hash(repo=REPO):
@@ -225,11 +227,11 @@ def finish(rep, ctx, meta, replay_key=None):
     print('  counts: ' + ', '.join('%s=%s' % kv for kv in sorted(rep.counts.items())))
     for n in rep.notes:
         print('  note: ' + n)
-    os.makedirs(os.path.join(HERE, 'replays'), exist_ok=True)
-    for old_ in os.listdir(os.path.join(HERE, 'replays')):
+    os.makedirs(REPL, exist_ok=True)
+    for old_ in os.listdir(REPL):
         if old_.startswith(pid + '-'):
             try:
-                os.remove(os.path.join(HERE, 'replays', old_))
+                os.remove(os.path.join(REPL, old_))
             except OSError:
                 pass
     for v in old:
@@ -239,7 +241,7 @@ def finish(rep, ctx, meta, replay_key=None):
     code = 0
     for v in new:
         hid = hashlib.sha256(v['key'].encode()).hexdigest()[:12]
-        rp = os.path.join(HERE, 'replays', '%s-%s.json' % (pid, hid))
+        rp = os.path.join(REPL, '%s-%s.json' % (pid, hid))
         json.dump({'property': pid, 'key': v['key'], 'rule': v['rule'], 'rule_text': rep.rules.get(v['rule']),
                    'fn': v['fn'], 'construct': v['construct'], 'text': v['text'], 'loc': v['loc'],
                    'detail': v['detail'], 'tier': rep.tier}, open(rp, 'w'), indent=1)
@@ -288,10 +290,10 @@ def finish(rep, ctx, meta, replay_key=None):
         'wall_s': round(time.time() - rep.t0, 3),
         'violations': len(new),
     }
-    os.makedirs(os.path.join(HERE, 'evidence'), exist_ok=True)
-    tmp = os.path.join(HERE, 'evidence', '%s.json.tmp%d' % (pid, os.getpid()))
+    os.makedirs(EVID, exist_ok=True)
+    tmp = os.path.join(EVID, '%s.json.tmp%d' % (pid, os.getpid()))
     json.dump(ev, open(tmp, 'w'), indent=1, sort_keys=True)
-    os.rename(tmp, os.path.join(HERE, 'evidence', '%s.json' % pid))
+    os.rename(tmp, os.path.join(EVID, '%s.json' % pid))
     print('== %s: %d obligations, %d hold, %d known findings, %d new violations (%.1fs)' % (
         pid, len(rep.obs), sum(1 for o in rep.obs if o['ok']), len(old), len(new), time.time() - rep.t0))
     return code
